@@ -163,6 +163,18 @@ Theorem C07_sense : forall px py ux uy uz lat f0 f1 roll pitch,
 Proof. exact c07_sense_signs. Qed.
 Print Assumptions C07_sense.
 
+(* converting a pixel to lon / lat / alt terminates: a point ON the ellipsoid and off the polar axis is at least the polar radius
+   from the centre, so geoloc.get_lonlatalt's latitude iteration (regenerated from source, a contraction with factor 0.0069:
+   C04) meets its exit test |lat - lat2| < 1e-10 at the fifth test at the latest; this discharges, per pixel, the
+   "every position eventually passes" hypothesis of C07_terminates below *)
+From PyOrb.proofs Require P_PixelLoop.
+From PyOrb.gen Require Gen_orbital.
+Theorem C07_pixel_conversion_terminates : forall x y z d, 0 < x * x + y * y -> on_ellipsoid A_wgs84 B_wgs84 x y z ->
+  Gen_orbital.gen_geoloc_lla_exit_p1 x y z d \/ Gen_orbital.gen_geoloc_lla_exit_p2 x y z d \/ Gen_orbital.gen_geoloc_lla_exit_p3 x y z d \/
+  Gen_orbital.gen_geoloc_lla_exit_p4 x y z d \/ Gen_orbital.gen_geoloc_lla_exit_p5 x y z d.
+Proof. exact P_PixelLoop.pixel_conversion_exits_by_5. Qed.
+Print Assumptions C07_pixel_conversion_terminates.
+
 (* termination of the vectorised latitude loops (model/M_VecLoop.v): with the exit test of the
    fixed code a batch leaves the loop as soon as every position is below 1e-10 or NaN *)
 Theorem C07_terminates : forall n passes,
